@@ -20,7 +20,7 @@ ASSUMPTIONS = ["'never iterates forever' is decided in its bounded form: a solve
                "stopping-ness and absorbing finals are decided by the oracle's MEC test, never assumed from the generator"]
 TIMEOUT = 1800
 TABLE = [("G-DEAD", 900), ("G-CYC", 600), ("G-SLOW", 150), ("G-ACY", 500), ("G-LEX", 200), ("G-TIE", 150), ("G-TINY", 200),
-         ("G-CUT", 300), ("G-TINYB", 300), ("G-INIT0F", 200), ("G-NOREACH", 200), ("G-ACYNF", 200), ("G-CYCNF", 150), ("G-INIT0NF", 100), ("G-AUXFAST", 40), ("G-MIX", 500), ("G-SMALLX", 400), ("G-VSLOW", 2), ("G-HALF", 60), ("G-LATE", 60), ("G-EMPTY", 150), ("G-GAP", 200), ("G-GAPLOOP", 400), ("G-CORR", 100), ("G-BIGR", 60), ("G-RETRY", 100)]
+         ("G-CUT", 300), ("G-TINYB", 300), ("G-INIT0F", 200), ("G-NOREACH", 200), ("G-ACYNF", 200), ("G-CYCNF", 150), ("G-INIT0NF", 100), ("G-AUXFAST", 40), ("G-MIX", 500), ("G-SMALLX", 400), ("G-VSLOW", 2), ("G-HALF", 60), ("G-LATE", 60), ("G-EMPTY", 150), ("G-GAP", 200), ("G-GAPLOOP", 400), ("G-CORR", 100), ("G-BIGR", 60), ("G-RETRY", 100), ("G-FINREP", 300)]
 
 
 def gen_cut(rng):
